@@ -288,6 +288,8 @@ class Prop(PropBase):
         for _ in range(3 if tier == "quick" else 40):
             fmt = rng.choice(["vdif", "vdif", "dada", "dada", "guppi", "stokes"])
             s = {"fmt": fmt, "seed": rng.randrange(10**6), "rate_mhz": rng.choice([1, 2, 16, 400, 2.9296875, 0.1953125]), "t0_s": rng.choice([0, 0, 12345, 86399])}
+            if fmt == "vdif" and s["rate_mhz"] * 10**6 % 1:
+                s["rate_mhz"] = 16         # a VDIF header stores whole Hz only (baseband asserts it)
             if fmt == "vdif":
                 s.update(complex=rng.random() < 0.5, bps=rng.choice([8, 8, 2]), a=rng.choice([1, 2]), b=rng.choice([1, 2, 4]), spf=rng.choice([32, 64]))
                 if s["bps"] == 2 and s["complex"] and s["b"] == 1:
